@@ -47,6 +47,9 @@ type Corpus struct {
 // Get returns a document by name.
 func (c *Corpus) Get(name string) *Doc { return c.byName[name] }
 
+// theCorpus is the corpus of this process (set by LoadCorpus).
+var theCorpus *Corpus
+
 var corpusDirs = []string{"examples", "note/examples", "regimes/common/examples"}
 
 // FixedHeadUUID gives each corpus envelope a stable v7 identifier.
@@ -170,6 +173,7 @@ func LoadCorpus(repo string) (*Corpus, error) {
 		}
 		return nil, fmt.Errorf("only %d of %d corpus documents could be built by the tree under test:\n%s", len(c.Valid), len(c.Docs), msg)
 	}
+	theCorpus = c
 	return c, nil
 }
 
